@@ -426,6 +426,18 @@ func (s *genState) expr(c ctx) ast.Expression {
 		for i := 0; i < n; i++ {
 			e.Alternatives = append(e.Alternatives, s.expr(sub))
 		}
+		if w[kRecovery] > 0 && c.depth >= 3 && s.r.Intn(6) == 0 {
+			// a recovery operator as a NON-LAST alternative: when its guarded expression fails without a listed throw the
+			// choice backtracks to the alternatives behind it
+			rc := ast.NewRecoveryExpr(ast.Pos{})
+			rc.Expr = e.Alternatives[0]
+			body := s.expr(ctx{anc: anc, depth: c.depth - 2, head: true, consume: true, noCalls: true})
+			st := ast.NewZeroOrMoreExpr(ast.Pos{})
+			st.Expr = body
+			rc.RecoverExpr = st
+			rc.Labels = append(rc.Labels, ast.FailureLabel(s.flabel[s.r.Intn(len(s.flabel))]))
+			e.Alternatives[0] = rc
+		}
 		return e
 	case kSeq:
 		e := ast.NewSeqExpr(ast.Pos{})
@@ -447,6 +459,22 @@ func (s *genState) expr(c ctx) ast.Expression {
 		e := ast.NewRecoveryExpr(ast.Pos{})
 		e.Expr = s.expr(sub)
 		e.RecoverExpr = s.expr(ctx{anc: anc, depth: c.depth - 1, head: true, consume: c.consume, noCalls: true})
+		if c.depth >= 2 && s.r.Intn(4) == 0 {
+			// a recovery expression that cannot fail - the usual "skip to the next synchronisation point" handler: r*, r?.
+			// Whether the OPERATOR can fail is another matter: the guarded expression fails without a listed throw and the
+			// enclosing choice has to go on with its next alternative (round 21, C14: alternatives behind such an operator
+			// pruned by the generator)
+			body := s.expr(ctx{anc: anc, depth: c.depth - 2, head: true, consume: true, noCalls: true})
+			if s.r.Intn(2) == 0 {
+				st := ast.NewZeroOrMoreExpr(ast.Pos{})
+				st.Expr = body
+				e.RecoverExpr = st
+			} else {
+				op := ast.NewZeroOrOneExpr(ast.Pos{})
+				op.Expr = body
+				e.RecoverExpr = op
+			}
+		}
 		if w[kAction] > 0 && w[kLabeled] > 0 && c.depth >= 2 && s.r.Intn(3) == 0 {
 			// the generator compiles the guarded and the recovery expression in ONE label list: a code block at the top
 			// of the recovery expression receives the labels at the top of the guarded one (round 18, C04)
